@@ -135,7 +135,7 @@ impl TraitHandler for DebugEnumHandler {
                             }
                         } else {
                             block_token_stream
-                                .extend(quote!(let mut builder = f.debug_tuple(#name_string);));
+                                .extend(create_unnamed_field_builder(name_string.as_deref()));
 
                             for field in fields.named.iter() {
                                 let field_attribute = FieldAttributeBuilder {
@@ -255,7 +255,7 @@ impl TraitHandler for DebugEnumHandler {
                             }
                         } else {
                             block_token_stream
-                                .extend(quote!(let mut builder = f.debug_tuple(#name_string);));
+                                .extend(create_unnamed_field_builder(name_string.as_deref()));
 
                             for (index, field) in fields.unnamed.iter().enumerate() {
                                 let field_attribute = FieldAttributeBuilder {
@@ -368,4 +368,12 @@ fn create_named_field_builder(name_string: Option<&str>) -> proc_macro2::TokenSt
     } else {
         super::common::create_debug_map_builder()
     }
+}
+
+#[inline]
+fn create_unnamed_field_builder(name_string: Option<&str>) -> proc_macro2::TokenStream {
+    // without a name, the tuple is printed bare, like `(1, 2)`
+    let name_string = name_string.unwrap_or("");
+
+    quote!(let mut builder = f.debug_tuple(#name_string);)
 }
